@@ -336,14 +336,21 @@ class Addr:
     coff  : constant byte offset from root, or None if an index is variable
     idx   : list of index operand refs for the '[]' steps
     """
-    __slots__ = ('root', 'steps', 'struct', 'coff', 'idx')
+    __slots__ = ('root', 'steps', 'struct', 'coff', 'idx', 'fsteps')
 
-    def __init__(self, root, steps, struct, coff, idx):
+    def __init__(self, root, steps, struct, coff, idx, fsteps=()):
         self.root = root
         self.steps = tuple(steps)
         self.struct = struct
         self.coff = coff
         self.idx = idx
+        self.fsteps = tuple(fsteps)   # (struct name or '', field) per step, '[]' steps as ('', '[]')
+
+    def has_field(self, struct, field):
+        return (struct, field) in self.fsteps
+
+    def last(self):
+        return self.fsteps[-1] if self.fsteps else ('', '')
 
     @property
     def path(self):
@@ -364,6 +371,7 @@ def resolve_addr(fn, ref, through_casts=True):
     """Follow GEP / bitcast chains from a pointer operand down to its root."""
     steps = []
     idxs = []
+    fsteps = []
     struct = ''
     coff = 0
     cur = ref
@@ -373,7 +381,8 @@ def resolve_addr(fn, ref, through_casts=True):
         if isinstance(cur, dict):
             ce = cur.get('ce')
             if ce == 'getelementptr':
-                st, ix, sname, co = _path_steps(cur.get('path', []))
+                st, ix, sname, fs = _path_steps(cur.get('path', []))
+                fsteps = fs + fsteps
                 steps = st + steps
                 idxs = ix + idxs
                 if sname:
@@ -389,7 +398,8 @@ def resolve_addr(fn, ref, through_casts=True):
         if ins is None:
             break
         if ins.op == 'getelementptr':
-            st, ix, sname, co = _path_steps(ins.x.get('path', []))
+            st, ix, sname, fs = _path_steps(ins.x.get('path', []))
+            fsteps = fs + fsteps
             steps = st + steps
             idxs = ix + idxs
             if sname:
@@ -402,22 +412,25 @@ def resolve_addr(fn, ref, through_casts=True):
             cur = ins.o[0]
             continue
         break
-    return Addr(cur, steps, struct, coff, idxs)
+    return Addr(cur, steps, struct, coff, idxs, fsteps)
 
 
 def _path_steps(path):
     steps = []
     idxs = []
+    fsteps = []
     sname = ''
     for p in path:
         if 'f' in p:
             steps.append(p['f'])
+            fsteps.append((p.get('s', ''), p['f']))
             if p.get('s') and not sname:
                 sname = p['s']
         else:
             steps.append('[]')
+            fsteps.append(('', '[]'))
             idxs.append(p['idx'])
-    return steps, idxs, sname, None
+    return steps, idxs, sname, fsteps
 
 
 def strip_casts(fn, ref):
